@@ -91,3 +91,9 @@ CLAIMS["C19"] = (
     "Decides rules R19.1-R19.5. Not decided: totals over arbitrary timestamp histories, ordering after truncation, window sums, sessions racing with accounting (F8: counters are attached by the input goroutine — timing), partial multi-chunk writes that fail midway (F10)." + COMMON_NOTE,
     "path-sensitive reachability, path enumeration of a loop body (linear use), provenance and alias slices on go/ssa",
     "3/C19")
+
+CLAIMS["C14"] = (
+    "The datagram budget as wiring plus folded arithmetic: the overhead constant equals nonce + metadata + two tags; maxFragmentSize is folded for every supported MTU (1280..1500) x transport x low-entropy mode against the datagram budget, the 32768 limit and the 16-bit encoded length; maxPaddingSize is folded on a boundary grid against clamp(MTU - payload - 88 - existing, 0, 255); at the UDP write sites each padding cap is computed from u.mtu, the payloadLen of the metadata actually marshalled, and the padding already placed; the low-entropy path refuses an over-MTU datagram; the narrow fields (piggyback length, fragment index, window) are bounded.",
+    "Decides rules R14.1-R14.5. Not decided: len(datagram) <= MTU as joint arithmetic over all four configuration axes (wiring and each budget function are decided, not the sum for every combination); MTU outside [1280,1500]." + COMMON_NOTE,
+    "constant folding over the whole MTU range and a boundary grid, argument provenance at call sites, dominance on go/ssa",
+    "3/C14")
